@@ -2,8 +2,9 @@ import RisorModel.Util
 import RisorModel.C03.Model
 /-! Line-protocol front end of the C03 model (fields after the leading `C03`).
 
-* `toks <runes> <a,b,eof;…>`   runes = comma-separated code points (`-` = empty); per token
-  the start/end rune offsets and whether it is the EOF token →
+* `toks <runes> <a,b,eof[,len];…>`   runes = comma-separated code points (`-` = empty); per token
+  the start/end rune offsets, whether it is the EOF token and optionally the number of runes of
+  the source line the error quotes (default: the length of the model's GetLineText range) →
   `ok` then one field per token: `sl,sc,sls,el,ec,els,<G>,<F>` with the model's position
   registers at both ends, G = `P` | `s:e` (GetLineText) and F = `P` | `pad:n` (FriendlyErrorMessage)
 * `ast <prefix tokens>` → `clean` | `nil <slot>`
@@ -37,18 +38,34 @@ def showOutNat (o : Out (Nat × Nat)) : String :=
   | .panic _ => "P"
   | .ok (a, b) => toString a ++ ":" ++ toString b
 
+/-- number of runes of the quoted line: given by the request (the returned error's own
+    `SourceCode()`), or else the length of the range the `GetLineText` model returns
+    (the empty text when it panics) -/
+def quotedLen (g : Out (Int × Int)) (given : Option Nat) : Int :=
+  match given with
+  | some n => n
+  | none =>
+    match g with
+    | .ok (s, e) => e - s
+    | .panic _ => 0
+
 def tokReply (cs : Array Nat) (st : Array LexSt) (spec : String) : String :=
-  match spec.splitOn "," with
-  | [a, b, e] =>
+  let go (a b e : String) (len : Option Nat) : String :=
     match a.toNat?, b.toNat? with
     | some a, some b =>
       match st[a]?, st[b]? with
       | some s, some t =>
         let g := getLineText cs s.pos s.line (e == "1")
-        let f := friendly s.col t.col
+        let f := friendly s.line s.col t.line t.col (quotedLen g len)
         s!"{s.line},{s.col},{s.lineStart},{t.line},{t.col},{t.lineStart},{showOutPair g},{showOutNat f}"
       | _, _ => "range"
     | _, _ => "bad"
+  match spec.splitOn "," with
+  | [a, b, e] => go a b e none
+  | [a, b, e, l] =>
+    match l.toNat? with
+    | some n => go a b e (some n)
+    | none => "bad"
   | _ => "bad"
 
 def parseVal (s : String) : Option Val :=
